@@ -48,7 +48,8 @@ def _payload(rng: Rng, form: str) -> bytes:
         r = rng.random()
         if r < 0.2:
             # compact + b64=false: any octet string is admissible, what is not URL-safe travels detached
-            return rng.pick([b"\xff\xfe", b"\x00", b"abc\n", b"abc\r\n", b"\nabc", b"abc\x00", "tr\u00e4iling\n".encode(), b"a b", b"a+b/c=",
+            return rng.pick([b"\xff\xfe", b"\x00", b"abc\n", b"abc\r\n", b"\nabc", b"abc\x00", "tr\u00e4iling\n".encode(), b"a b", b"a+b/c=", b"$02", b"hello world",
+                             b"{\"a\":1}", b"!#$%&'()*,:;<=>?@[]^`{|}", b" ",
                              rng.bytes_(rng.randrange(1, 40))])
         return W.gen_payload(rng, text_only=True, urlsafe=rng.pick([True, False, None]))
     if form == "f7797":
